@@ -189,7 +189,7 @@ def run(ck, w):
     edges = set()
     for e, pol in tests:
         edges |= rules.bool_switch_edges(gb, e, pol)
-    oks = [bb for bb, j, s in rules.agg_sites(gb, "std::result::Result", "Ok")]
+    oks = [bb for bb, j, s in rules.agg_sites(gb, "std::result::Result", "Ok") if s["pl"]["l"] == 0]
     cache_hit = [e for e in gb.events if e.bb in gb.live and e.name.endswith("LruCache::<K, V, S>::get")]
     # the cache-hit return is exempt: only verified blocks enter the cache (C03.5)
     late_oks = [bb for bb in oks if not cache_hit or not any(bb in gb.reachable(c.bb) and not any(t[0].bb in gb.reachable(c.bb) and bb in gb.reachable(t[0].bb) for t in tests) for c in cache_hit)]
